@@ -33,7 +33,7 @@ def run_fuzz(exe, workdir, seed, runs, jobs, max_len, seed_dir=None, dict_file=N
             cmd += extra
         env = dict(os.environ)
         env["VERIF_FUZZ_STATS"] = os.path.join(base, "stats-%d" % j)
-        env["ASAN_OPTIONS"] = "detect_leaks=0:allocator_may_return_null=1:handle_abort=1"
+        env["ASAN_OPTIONS"] = "detect_leaks=0:allocator_may_return_null=1:handle_abort=1:malloc_context_size=0:quarantine_size_mb=64"
         env["UBSAN_OPTIONS"] = "print_stacktrace=1"
         logf = open(os.path.join(base, "log-%d" % j), "w")
         procs.append((j, subprocess.Popen(cmd, stdout=logf, stderr=subprocess.STDOUT, env=env), logf))
